@@ -566,6 +566,8 @@ func runC01(c *Ctx) {
 		}
 	})
 
+	c.rule("C01.V5", "a fork cannot displace a checkpointed header: the fork height is measured against the last checkpoint the accepted chain has passed: "+checkpointFloorDoc, func() { c.checkpointFloor() })
+
 	c.rule("C01.O2", "handleDonePeerMsg: when the departing peer was the sync peer, headerList.ResetHeaderState(<BlockHeaders.ChainTip()>) follows (list re-mirrors the store)", func() {
 		fn := c.fn("(*neutrino.blockManager).handleDonePeerMsg")
 		syncPeer := c.field("neutrino", "blockManager", "syncPeer")
